@@ -15,6 +15,7 @@ THEOREMS = [
     "C04_order_independent",
     "C04_isolation_independent",
     "isolationOk_sound",
+    "C04_blocks_exactly_once",
 ]
 CORR_OPS = ["sched_check:shape", "sched_check:discipline", "sched_check:isolation", "train:dask_eq_numpy"]
 RULE = ("trainers k-means / GMM ML / GMM MAP / ISV and JFA fit_using_array / WCCN / whitening on a Dask array x row chunkings (every "
@@ -41,6 +42,10 @@ def scenario(ctx, i, trainer=None):
         N = max(N, 4 * D + 4)
     w, m, v, _ = gen.gmm_params(r, C, D, scales=np.ones(D))
     X = gen.sample_data(r, w, m, v, N)
+    if trainer in ("wccn", "whitening") and r.random() < 0.4:
+        # features measured from a far origin (a temperature in kelvin, a timestamp): both transforms are translation invariant
+        # and are computed from centred rows, so the in-memory result stays accurate - and the Dask result has to match it
+        X = X + float(10.0 ** r.integers(4, 7)) * r.choice([-1.0, 1.0], size=D)
     if trainer == "kmeans" and r.random() < 0.3:
         m = m.copy()
         m[int(r.integers(0, C))] += 1e3  # an initial centroid that attracts nothing: its cluster stays empty, it keeps its place
@@ -171,7 +176,8 @@ def correspondence(ctx):
         ctx.traces += len(lines)
         for m_, o in zip(meta, core.drive(lines)):
             ctx.count("graphs-checked")
-            if not o["fan_in"] or (sc["trainer"] in ("kmeans", "gmm_ml", "gmm_map") and m_["workers"] != m_["n_blocks"]):
+            # shape: one worker task per row block, each entering the final task along exactly one path (C04_blocks_exactly_once)
+            if not o["fan_in"] or (sc["trainer"] in ("kmeans", "gmm_ml", "gmm_map") and (m_["workers"] != m_["n_blocks"] or not o["exactly_once"] or not o["topo_ordered"])):
                 bad.append({"op": "sched_check:shape", "input": inp, "graph": m_, "model": o})
             if not o["disciplined"]:
                 bad.append({"op": "sched_check:discipline", "input": inp, "graph": m_, "model": o})
